@@ -661,7 +661,7 @@ def check(run):
         try:
             with common.watchdog(run.impl_timeout):
                 return fn()
-        except Exception:  # noqa
+        except (Exception, common.ImplTimeout):  # noqa
             return None
 
     from geostructures import GeoLineString, GeoPolygon, GeoPoint, GeoRing, MultiGeoLineString, MultiGeoPoint, MultiGeoPolygon
